@@ -114,12 +114,12 @@ def r17b(chk, rid='R17.b'):
     chk.rule(rid, "canonicalisation agreement between parsing and editing a media list: _setMediaText collapses to 'all' and drops repeated media types; appendMedium rejects additions to 'all', moves a type already present to the end (delete, then append) and clears the list when 'all' is appended; deleteMedium rejects an absent type; the serializer writes 'all' for the empty list")
     m = chk.repo.mod(ML)
     st = ast.unparse(m.get('MediaList._setMediaText'))
-    chk.ob(rid, ML, 'MediaList._setMediaText', "'all' replaces everything collected so far", "if mediaType == 'all':" in st and 'finalseq = commentseqonly' in st, '')
-    chk.ob(rid, ML, 'MediaList._setMediaText', 'a repeated media type is skipped', 'elif mediaType in mediaTypes:\n' in st and 'continue' in st, '')
-    chk.ob(rid, ML, 'MediaList._setMediaText', 'one malformed query invalidates the list', 'if not v.wellformed:' in st and 'ok = False' in st, '')
+    chk.ob(rid, ML, 'MediaList._setMediaText', "'all' replaces everything collected so far", "if mediaType == 'all':" in st and 'finalseq = commentseqonly' in st, '', shape=True)
+    chk.ob(rid, ML, 'MediaList._setMediaText', 'a repeated media type is skipped', 'elif mediaType in mediaTypes:\n' in st and 'continue' in st, '', shape=True)
+    chk.ob(rid, ML, 'MediaList._setMediaText', 'one malformed query invalidates the list', 'if not v.wellformed:' in st and 'ok = False' in st, '', shape=True)
     ap = m.get('MediaList.appendMedium')
     src = ast.unparse(ap)
-    chk.ob(rid, ML, 'MediaList.appendMedium', "appending to a list that contains 'all' is rejected with InvalidModificationErr", "if 'all' in mts:" in src and 'InvalidModificationErr' in src, '')
+    chk.ob(rid, ML, 'MediaList.appendMedium', "appending to a list that contains 'all' is rejected with InvalidModificationErr", "if 'all' in mts:" in src and 'InvalidModificationErr' in src, '', shape=True)
     # move-to-end: delete then append in the same branch
     mv = [n for n in ast.walk(ap) if isinstance(n, ast.If) and 'newmt in mts' in text(n.test)]
     ok = False
@@ -127,11 +127,27 @@ def r17b(chk, rid='R17.b'):
         body = [text(s) for s in n.body]
         if any('self.deleteMedium(newmt)' in b for b in body) and any("self._seq.append(newMedium, 'MediaQuery')" in b for b in body):
             ok = body.index([b for b in body if 'deleteMedium' in b][0]) < body.index([b for b in body if '_seq.append' in b][0])
-    chk.ob(rid, ML, 'MediaList.appendMedium', 'a media type already present is deleted and appended again (moves to the end)', ok, 'duplicates or lost entries')
-    chk.ob(rid, ML, 'MediaList.appendMedium', "appending 'all' clears the list first", "if 'all' == newmt:" in src and 'self._clearSeq()' in src, '')
+    chk.ob(rid, ML, 'MediaList.appendMedium', 'a media type already present is deleted and appended again (moves to the end)', ok, 'duplicates or lost entries', shape=True)
+    chk.ob(rid, ML, 'MediaList.appendMedium', "appending 'all' clears the list first", "if 'all' == newmt:" in src and 'self._clearSeq()' in src, '', shape=True)
+    # a query with features has no simple media type (mediaType is None -> ''): it must never
+    # be used as the key of a deletion
+    mm = chk.repo.mod(ML)
+    for c in ast.walk(ap):
+        if isinstance(c, ast.Call) and call_name(c) == 'self.deleteMedium' and c.args and isinstance(c.args[0], ast.Name):
+            var = c.args[0].id
+            guarded = False
+            child, p = mm.enclosing_stmt(c), mm.parents.get(mm.enclosing_stmt(c))
+            while p is not None and p is not ap:
+                if isinstance(p, ast.If) and child in p.body:
+                    conj = p.test.values if isinstance(p.test, ast.BoolOp) and isinstance(p.test.op, ast.And) else [p.test]
+                    if any(isinstance(x, ast.Name) and x.id == var for x in conj):
+                        guarded = True
+                child, p = p, mm.parents.get(p)
+            chk.ob(rid, ML, 'MediaList.appendMedium', f'`{text(c)}` only for a non-empty media type', guarded,
+                   'a media query with features has an empty media type: appending one would delete another feature query that also has none')
     dm = ast.unparse(m.get('MediaList.deleteMedium'))
-    chk.ob(rid, ML, 'MediaList.deleteMedium', 'an absent media type is rejected with NotFoundErr', 'NotFoundErr' in dm and 'else:' in dm, '')
-    chk.ob(rid, ML, 'MediaList.deleteMedium', 'types are compared in normalised form', 'normalize(mq.value.mediaType) == oldMedium' in dm and 'oldMedium = normalize(oldMedium)' in dm, '')
+    chk.ob(rid, ML, 'MediaList.deleteMedium', 'an absent media type is rejected with NotFoundErr', 'NotFoundErr' in dm and 'else:' in dm, '', shape=True)
+    chk.ob(rid, ML, 'MediaList.deleteMedium', 'types are compared in normalised form', 'normalize(mq.value.mediaType) == oldMedium' in dm and 'oldMedium = normalize(oldMedium)' in dm, '', shape=True)
     sm = chk.repo.mod(SER)
     s = ast.unparse(sm.get('CSSSerializer.do_stylesheets_medialist'))
     chk.ob(rid, SER, 'CSSSerializer.do_stylesheets_medialist', "the empty list serialises as 'all'", "if len(medialist) == 0:\n        return 'all'" in s, '')
@@ -160,9 +176,9 @@ def r17c(chk, rid='R17.c'):
            "`tv and (color)` reports mediaType 'tv': duplicate filtering and the 'all' collapse of the media list drop feature queries")
     only = [c for c in ast.walk(fn) if isinstance(c, ast.Call) and call_name(c).endswith('Prod') and any(k.arg == 'name' and const(k.value) == 'ONLY|NOT' for k in c.keywords)]
     chk.ob(rid, MQ, 'MediaQuery._setMediaText', "the ONLY|NOT production stores 'not simple'", bool(only) and all(any(k.arg == 'toStore' and const(k.value) == 'not simple' for k in c.keywords) for c in only), '')
-    chk.ob(rid, MQ, 'MediaQuery._setMediaText', 'mediaType is set only for simple queries', "if 'not simple' not in store:" in ast.unparse(fn), '')
+    chk.ob(rid, MQ, 'MediaQuery._setMediaText', 'mediaType is set only for simple queries', "if 'not simple' not in store:" in ast.unparse(fn), '', shape=True)
     src = ast.unparse(fn)
-    chk.ob(rid, MQ, 'MediaQuery._setMediaText', 'the media type production stops and hands back on the first non-matching token', "name='media_type'" in src and 'stopIfNoMoreMatch=True' in src, '')
+    chk.ob(rid, MQ, 'MediaQuery._setMediaText', 'the media type production stops and hands back on the first non-matching token', "name='media_type'" in src and 'stopIfNoMoreMatch=True' in src, '', shape=True)
     mt = m.class_assign('MediaQuery', 'MEDIA_TYPES')
     vals = {const(e) for e in mt.elts} if isinstance(mt, (ast.List, ast.Tuple)) else set()
     want = {'all', 'braille', 'handheld', 'print', 'projection', 'speech', 'screen', 'tty', 'tv', 'embossed'}
